@@ -1,5 +1,7 @@
 use std::sync::Arc;
 
+use fxhash::FxHashSet;
+
 use crate::{
     engine::computation_graph::{
         ActiveComputationGuard, computing::QueryComputing, database::Timestamp,
@@ -34,6 +36,11 @@ pub struct QueryCaller {
     /// `repair` on its callees, instead of checking the dirtiness of the
     /// callee and only invoking `repair` when the callee is dirty.
     pedantic_repair: bool,
+
+    /// The callees this query read during its previous execution (empty if
+    /// it has never been executed). Only these are covered by the transitive
+    /// firewall repair done at the root of the current request.
+    previous_callees: Option<Arc<FxHashSet<QueryID>>>,
 }
 
 impl QueryCaller {
@@ -43,7 +50,38 @@ impl QueryCaller {
         computing: Arc<QueryComputing>,
         pedantic_repair: bool,
     ) -> Self {
-        Self { query_id, computing: Some(computing), reason, pedantic_repair }
+        Self {
+            query_id,
+            computing: Some(computing),
+            reason,
+            pedantic_repair,
+            previous_callees: None,
+        }
+    }
+
+    /// Records the callees read by the previous execution of this query.
+    #[must_use]
+    pub fn with_previous_callees(
+        mut self,
+        previous_callees: Arc<FxHashSet<QueryID>>,
+    ) -> Self {
+        self.previous_callees = Some(previous_callees);
+        self
+    }
+
+    /// Returns `true` if the executor asks for `callee` without having read
+    /// it in its previous execution (or has never been executed before).
+    ///
+    /// Such a dependency is not covered by the transitive-firewall repair
+    /// performed for the root of the request, so the dirty flags below the
+    /// callee may be incomplete and it has to be repaired pedantically.
+    #[must_use]
+    pub fn reads_new_callee(&self, callee: &QueryID) -> bool {
+        self.require_value()
+            && self
+                .previous_callees
+                .as_ref()
+                .is_none_or(|known| !known.contains(callee))
     }
 
     pub const fn new_external_input(
@@ -55,6 +93,7 @@ impl QueryCaller {
             computing: None,
             reason: CallerReason::RequireValue(Some(worker)),
             pedantic_repair: false,
+            previous_callees: None,
         }
     }
 
@@ -135,6 +174,31 @@ impl CallerInformation {
     }
 
     pub const fn timestamp(&self) -> Timestamp { self.timestamp }
+
+    /// If the caller is an executor asking for a callee it did not read in
+    /// its previous execution, returns the same caller information with
+    /// pedantic repair switched on for this request.
+    #[must_use]
+    pub fn pedantic_for_new_callee(&self, callee: &QueryID) -> Option<Self> {
+        let CallerKind::Query(query_caller) = &self.kind else {
+            return None;
+        };
+
+        if query_caller.pedantic_repair
+            || !query_caller.reads_new_callee(callee)
+        {
+            return None;
+        }
+
+        let mut query_caller = query_caller.clone();
+        query_caller.pedantic_repair = true;
+
+        Some(Self {
+            kind: CallerKind::Query(query_caller),
+            timestamp: self.timestamp,
+            active_computation_guard: self.active_computation_guard.clone(),
+        })
+    }
 
     pub const fn kind(&self) -> &CallerKind { &self.kind }
 }
